@@ -496,6 +496,7 @@ fn op_blk(a: &[&str]) -> Option<String> {
         return Some("bad-args".into());
     }
     let mut want: Vec<(u64, u64, u64)> = Vec::new(); // address, op_index, line
+    let t0 = std::time::Instant::now();
     let res = catch_unwind(AssertUnwindSafe(|| -> Result<Vec<u8>, gimli::write::Error> {
         let mut prog = new_program(&p);
         let mut ptr: u64 = 0;
@@ -521,6 +522,9 @@ fn op_blk(a: &[&str]) -> Option<String> {
             }
         }
         let end_off = (ptr / maxops + 1) * minlen;
+        if std::env::var_os("C13_TRACE").is_some() {
+            eprintln!("blk-wline: generate {:?}", t0.elapsed());
+        }
         prog.end_sequence(end_off);
         let mut ls = LineStringTable::default();
         let mut st = StringTable::default();
@@ -531,6 +535,7 @@ fn op_blk(a: &[&str]) -> Option<String> {
         Ok(Err(e)) => return Some(format!("err {}", werr(&e))),
         Ok(Ok(x)) => x,
     };
+    let t1 = t0.elapsed();
     let start = program_start(&sec, false)?;
     let mut h = DIGEST_INIT;
     for b in &sec[start..] {
@@ -538,7 +543,11 @@ fn op_blk(a: &[&str]) -> Option<String> {
     }
     let mut reply = format!("digest {h}");
     if p.readable() {
-        match read_rows(&p, &sec, Some(b"d")) {
+        let rr = read_rows(&p, &sec, Some(b"d"));
+        if std::env::var_os("C13_TRACE").is_some() {
+            eprintln!("blk-wline: generate+write {:?}, digest+read {:?}, {} bytes", t1, t0.elapsed() - t1, sec.len());
+        }
+        match rr {
             Ok(got) => {
                 let ok = got.len() == want.len() + 1
                     && got.iter().zip(want.iter()).all(|(g, w)| !g.end && (g.addr, g.op, g.line) == *w && g.col == 0 && g.disc == 0 && g.isa == 0 && g.flags == 1)
